@@ -42,6 +42,7 @@ var (
 	hbFleet  []*srvInfo // servers with a short heartbeat timeout
 	sshOpen  *srvInfo   // ssh gateway without authorized keys
 	sshKeyed *srvInfo   // ssh gateway with authorized keys
+	stallSrv *srvInfo   // tcpMux off, used only by the stall cases
 	all      []*srvInfo
 	webPort  int
 )
@@ -105,7 +106,8 @@ func main() {
 	sshOpen.SSHPort = pa.Get()
 	sshKeyed = mk("ssh-keyed", "token", false, false, true, 0, false)
 	sshKeyed.SSHPort, sshKeyed.SSHKeys = pa.Get(), true
-	all = append(append(append([]*srvInfo{}, fleet...), hbFleet...), sshOpen, sshKeyed)
+	stallSrv = mk("tok-nomux-stall", "token", false, false, false, 0, false)
+	all = append(append(append([]*srvInfo{}, fleet...), hbFleet...), sshOpen, sshKeyed, stallSrv)
 
 	for _, s := range all {
 		if s.S, err = h.StartServerText(prop, s.cfgText()); err != nil {
@@ -117,7 +119,15 @@ func main() {
 		if s.HBTimeout > 0 {
 			continue
 		}
-		inc, err := loginHonest(s, "tcp", "inc", "INC-"+s.Name, 1)
+		pool := 1
+		if s == stallSrv {
+			pool = 0
+		}
+		tr := "tcp"
+		if s == stallSrv {
+			tr = "websocket"
+		}
+		inc, err := loginHonest(s, tr, "inc", "INC-"+s.Name, pool)
 		if err != nil {
 			fatal("incumbent on "+s.Name, err)
 		}
@@ -141,7 +151,7 @@ func main() {
 	base := takeBaseline()
 
 	nCases := run.N(330, 4200)
-	batches := run.N(3, 6)
+	batches := run.N(2, 6)
 	var warm *residue
 	for b := 0; b < batches; b++ {
 		lo, hi := b*nCases/batches, (b+1)*nCases/batches
@@ -157,7 +167,7 @@ func main() {
 			break
 		}
 		tl := time.Now()
-		r := globalLedger(base, fmt.Sprintf("after batch %d", b+1))
+		r := globalLedger(base, fmt.Sprintf("after batch %d", b+1), b == 0 || b == batches-1)
 		fmt.Fprintf(os.Stderr, "batch %d: cases %v, ledger %v\n", b+1, tl.Sub(tb).Round(time.Millisecond), time.Since(tl).Round(time.Millisecond))
 		if b == 0 {
 			warm = r
@@ -193,7 +203,9 @@ func dispatch(c *h.Case) {
 		si := fleet[rng.Intn(len(fleet))]
 		trs := si.transports()
 		barrageCase(c, si, trs[rng.Intn(len(trs))])
-	case r < 89:
+	case r < 83:
+		stallCase(c)
+	case r < 91:
 		si := hbFleet[rng.Intn(len(hbFleet))]
 		trs := si.transports()
 		hbCase(c, si, trs[rng.Intn(len(trs))])
@@ -308,7 +320,7 @@ func attemptsSoFar() int64 {
 
 // globalLedger: every case has ended; the servers' tables, the dashboard counters and the OS must be back at
 // the state the honest incumbents alone account for.
-func globalLedger(base *baseline, when string) *residue {
+func globalLedger(base *baseline, when string, sample bool) *residue {
 	describe := func() (string, bool) {
 		var diffs []string
 		total := 0
@@ -397,14 +409,18 @@ func globalLedger(base *baseline, when string) *residue {
 	// residue sample: wait for stragglers (yamux keepalive teardown of vanished kcp peers takes ~15 s)
 	var r residue
 	best := 1 << 30
-	for i := 0; i < 40; i++ {
+	if !sample {
+		return nil
+	}
+	stable := 0
+	for i := 0; i < 120 && stable < 8; i++ {
 		if g := h.Goroutines(); g < best {
-			best = g
+			best, stable = g, 0
 			r = residue{goroutines: g, fds: h.FDCount(), sites: h.GoroutinesBySite(), attempts: attemptsSoFar()}
-		} else if i > 10 {
-			break
+		} else {
+			stable++
 		}
-		time.Sleep(500 * time.Millisecond)
+		time.Sleep(250 * time.Millisecond)
 	}
 	return &r
 }
